@@ -1,8 +1,8 @@
-\* cache keys: 2 identifiers x 3 sizes x 2 look-back periods, CleanupShuffleShardCache; address / registration / heartbeat updates
+\* cache keys: 2 identifiers x 2 look-back periods, CleanupShuffleShardCache; address / registration / heartbeat updates, 2 deep
 CONSTANTS
   Inst = {1, 2}
   Ident = {1, 2}
-  Sizes = {1, 2}
+  Sizes = {1}
   Lookbacks = {1, 2}
   Times = {3, 4}
   Readers = {}
